@@ -151,11 +151,15 @@ func c10Server(p *profile.Profile, flags map[string]string) (map[string]http.Han
 	for k, v := range flags {
 		set[k] = v
 	}
+	var obj plugin.ObjTool = c10ObjTool{p}
+	if c10RealObj {
+		obj = nil // the driver's default: binutils.Binutils with the tools found on PATH
+	}
 	err := driver.PProf(&plugin.Options{
 		Flagset: &c10Flags{set: set},
 		Fetch:   c10Fetcher{p},
 		Sym:     c10Sym{},
-		Obj:     c10ObjTool{p},
+		Obj:     obj,
 		UI:      ui,
 		HTTPServer: func(a *plugin.HTTPServerArgs) error {
 			handlers = a.Handlers
@@ -296,11 +300,14 @@ func (e *c10WebEnv) stallURLs() []string {
 	return urls
 }
 
+var c10RealObj bool // this case uses the real default ObjTool on a real ELF binary
+
 var c10TreesDir string // scratch directory of the source trees; replaced by <TREES> in every observed body
 
 // c10WebCase runs ONE phase of a web case in a process of its own (see c10WebRun).
 func c10WebCase(c *Ctx, cs *c10Case) {
 	e := &c10WebEnv{c: c, cs: cs, refs: map[string]map[string]bool{}}
+	c10RealObj = cs.RealObj
 	for i, hx := range []string{cs.Profile, cs.Profile2, cs.Profile3} {
 		if hx == "" {
 			hx = cs.Profile
